@@ -92,6 +92,7 @@ theorem data_step (w : W) (op : Op) : (step w op).1.data = applySet w.data (data
   | entAdd p e ctr ack => simp only [step, dataSet, applySet, processEntAdd]; split <;> rfl
   | drop p => rfl
   | conn p => simp only [step, dataSet, applySet, connPeer]; split <;> rfl
+  | reann p ctr ref ack => simp only [step, dataSet, applySet, processReann]; split <;> rfl
   | setData a fn v =>
     simp only [step, dataSet, localSet]
     cases locF w a with
